@@ -175,8 +175,9 @@ def run(ctx):
     if skip_exh:
         ctx.notes.append("BK_SKIP_EXH set: exhaustive TLC configs skipped (mutation run)")
     else:
-        ctx.tlc_check("GC.tla", "c08_gc_exh_quick.cfg", timeout=3000, coverage=True,
-                      require_actions=["Swap", "FinalMark", "VisitDo", "PutRaw", "WriteEnter", "Resume", "CommitDo", "ReadEnd"])
+        # (Next is one IF-THEN-ELSE: TLC's coverage does not list the sub-actions; vacuity is guarded by the broken variants
+        # below -- each needs Swap, the final mark, the visits ... to be reachable -- and by the generator histograms)
+        ctx.tlc_check("GC.tla", "c08_gc_exh_quick.cfg", timeout=3000)
         ctx.tlc_check("GC.tla", "c08_gc_live.cfg", timeout=3000, deadlock=True)
         if ctx.tier == "thorough":
             ctx.tlc_check("GC.tla", "c08_gc_exh_thorough_a.cfg", timeout=6 * 3600)
